@@ -3,6 +3,7 @@ package main
 import (
 	"fmt"
 	"os"
+	"sort"
 	"go/ast"
 	"go/token"
 	"go/types"
@@ -94,7 +95,7 @@ func (e *Env) applyContract(st *State, ct *Contract, args []Val, rt types.Type, 
 	if c != nil {
 		pos = c.Pos()
 	}
-	cx := &cenv{e: e, pre: st, post: st, vars: vars, ct: ct, file: ct.File}
+	cx := &cenv{e: e, pre: st, post: st, vars: vars, ct: ct, file: ct.File, applied: true}
 	if e.specMode == 0 {
 		for _, r := range ct.Requires {
 			g := cx.evalBool(r.Expr)
@@ -103,6 +104,15 @@ func (e *Env) applyContract(st *State, ct *Contract, args []Val, rt types.Type, 
 		}
 	}
 	pre := st.clone()
+	var preW map[string]string
+	var ctxW int
+	for _, a := range args {
+		if a.K == kCtx {
+			ctxW = a.World
+			preW = e.worldComps(st, a.World)
+			break
+		}
+	}
 	// modifies
 	for _, m := range ct.Modifies {
 		e.applyModifies(st, cx, m)
@@ -114,7 +124,7 @@ func (e *Env) applyContract(st *State, ct *Contract, args []Val, rt types.Type, 
 	} else {
 		res = e.resultHavoc(st, rt, lastName(ct.Key))
 	}
-	post := &cenv{e: e, pre: pre, post: st, vars: vars, ct: ct, file: ct.File}
+	post := &cenv{e: e, pre: pre, post: st, vars: vars, ct: ct, file: ct.File, applied: true}
 	if sig != nil {
 		bindResults(post.vars, sig, res)
 	} else if tup, ok := rt.(*types.Tuple); ok {
@@ -129,7 +139,11 @@ func (e *Env) applyContract(st *State, ct *Contract, args []Val, rt types.Type, 
 		st.assume(post.evalBool(en.Expr))
 	}
 	e.callSeq++
-	st.calls = append(st.calls, CallRec{Name: key, Args: args, Res: res, Seq: e.callSeq})
+	rec := CallRec{Name: key, Args: args, Res: res, Seq: e.callSeq, PreW: preW}
+	if preW != nil {
+		rec.PostW = e.worldComps(st, ctxW)
+	}
+	st.calls = append(st.calls, rec)
 	return []Out{{st: st, res: res}}
 }
 
@@ -160,6 +174,14 @@ func (e *Env) applyModifies(st *State, cx *cenv, m Clause) {
 		v := cx.eval(x)
 		e.havocReach(st, v, "modifies", 0)
 		return
+	}
+	if call, ok := m.Expr.(*ast.CallExpr); ok {
+		// below(ctx-store-expression): a store handle expression, e.g. k.ClientStore(ctx, chainName)
+		v := cx.eval(call)
+		if v.K == kStore || (v.K == kIface && v.Inner != nil && v.Inner.K == kStore) {
+			e.havocReach(st, v, "modifies", 0)
+			return
+		}
 	}
 	e.fail("unsupported modifies clause %q", m.Text)
 }
@@ -227,6 +249,7 @@ type FuncResult struct {
 	Bounded   bool
 	Env       *Env
 	IsTrusted bool
+	ClauseErrs []string
 }
 
 // verifyFunc generates the obligations of one function under contract.
@@ -258,6 +281,16 @@ func verifyFunc(p *Program, cx *Contracts, cfg *PropConfig, ct *Contract) *FuncR
 		args = append(args, v)
 		vars[prm.Name()] = v
 	}
+	// a context.Context parameter of a message server carries the sdk.Context: create its world up front
+	for i, prm := range fn.Params {
+		if isNamed(prm.Type(), "context", "Context") {
+			if f, ok := intrinsicsByName["github.com/cosmos/cosmos-sdk/types.UnwrapSDKContext"]; ok {
+				if sdkT := lookupNamed(e, sdkTypes, "Context"); sdkT != nil {
+					f(e, st, []Val{args[i]}, sdkT, nil)
+				}
+			}
+		}
+	}
 	pre := &cenv{e: e, pre: st, post: st, vars: vars, ct: ct, file: ct.File}
 	for _, r := range ct.Requires {
 		st.assume(pre.evalBool(r.Expr))
@@ -274,6 +307,7 @@ func verifyFunc(p *Program, cx *Contracts, cfg *PropConfig, ct *Contract) *FuncR
 	}
 	old := st.clone()
 	e.oldState = old
+	e.topVars = vars
 	outs := e.execFunc(st, fn, args, nil, 0)
 	if e.err != nil {
 		res.Err = e.err
@@ -290,6 +324,9 @@ func verifyFunc(p *Program, cx *Contracts, cfg *PropConfig, ct *Contract) *FuncR
 				fmt.Fprintf(os.Stderr, "PATH %s\n", strings.Join(o.st.trace, ">"))
 				for _, p := range o.st.pc {
 					fmt.Fprintf(os.Stderr, "   %s\n", trunc(p, 150))
+				}
+				for _, c := range o.st.calls {
+					fmt.Fprintf(os.Stderr, "   CALL %s (mark %d)\n", lastName(c.Name), o.st.loopMark)
 				}
 			}
 		}
@@ -313,14 +350,51 @@ func verifyFunc(p *Program, cx *Contracts, cfg *PropConfig, ct *Contract) *FuncR
 		for _, en := range ct.Ensures {
 			g := post.evalBool(en.Expr)
 			if e.err != nil {
-				res.Err = e.err
-				return res
+				// a clause that cannot be evaluated on this path is reported as undecided, the others are still checked
+				res.ClauseErrs = append(res.ClauseErrs, fmt.Sprintf("%s/post:%s: %v", e.curName, en.Label, e.err))
+				e.err = nil
+				continue
 			}
 			e.oblige(o.st, "post", en.Label, g, en.Text, fn.Pos())
 		}
 		// frame: components not named in modifies are unchanged
 		e.frameObligations(o.st, old, ct, pre, args)
 	}
+	for _, cs := range ct.CallSites {
+		if e.callSiteHits[cs.Clause.Label] == 0 {
+			e.fail("callsite clause [%s] of %s never matched a call of %s", cs.Clause.Label, ct.Key, cs.Callee)
+			res.Err = e.err
+			return res
+		}
+	}
+	// vacuity guard: every return site must be reachable by at least one satisfiable path
+	{
+		bySite := map[string][]*State{}
+		var order []string
+		for _, o := range outs {
+			if o.st.dead || o.st.panics != "" {
+				continue
+			}
+			k := strings.Join(o.st.trace, ">")
+			if _, ok := bySite[k]; !ok {
+				order = append(order, k)
+			}
+			bySite[k] = append(bySite[k], o.st)
+		}
+		sort.Strings(order)
+		for i, k := range order {
+			var alts []string
+			for _, s := range bySite[k] {
+				alts = append(alts, tAnd(append(append([]string(nil), s.defs...), s.pc...)...))
+				if len(alts) >= 6 {
+					break
+				}
+			}
+			o := &Obligation{Fn: e.curName, Kind: "cover", Label: fmt.Sprintf("return#%d", i+1), PC: []string{tOr(alts...)}, Goal: "true", Cover: true, decls: e.D, env: e, Detail: "return site " + k + " reachable", Pos: k}
+			e.obls = append(e.obls, o)
+		}
+	}
+	res.ClauseErrs = append(res.ClauseErrs, e.clauseErrs...)
 	res.Paths = nReturn
 	res.Obls = e.obls
 	res.Trusted, res.Dropped, res.Inlined, res.Havocked, res.Notes = e.trusted, e.dropped, e.inlined, e.havocked, e.notes
